@@ -9,7 +9,7 @@ use vbase::{ensure, fail};
 
 use crate::sx::{cmp_node, number_to_m, walk};
 
-pub const RULE: &str = "cases are well-formed JSON values of every type (bare literals, escaped strings, every number class, containers) with generated layout, plus a generated operation history. Sources: LazyValue from from_str / from_slice, as a borrowed struct field, from get and from both iterators; OwnedLazyValue from serde, as a struct field, from From<LazyValue> and from to_lazyvalue. For each source the accessor set (get_type, is_*, as_bool, as_number/as_u64/as_i64/as_f64, as_str, as_raw_number, get, pointer, as_array/as_object + len/iteration) is compared with the reference tree of the raw text; to_string must reproduce the raw text verbatim (deserialize-then-serialize == trimmed input); Value::try_from(lazy) must equal the reference; conversions borrowed->owned and clones must agree. Histories on OwnedLazyValue (clone, take, as_array_mut/as_object_mut + push / append_pair / replace / remove, get_mut, pointer_mut + assignment) are mirrored on a reference model; afterwards parse(to_string(mutated)) must equal the model, untouched children must still serialize to their source span byte for byte, and clones taken earlier must be unchanged. Non-trivial = container with >= 1 member or escaped string, or a history with a mutation after a clone; distinct by case bytes.";
+pub const RULE: &str = "cases are well-formed JSON values of every type (bare literals, escaped strings, every number class, containers) with generated layout, plus a generated operation history. Sources: LazyValue from from_str / from_slice, as a borrowed struct field, from get and from both iterators; OwnedLazyValue from serde, as a struct field, from From<LazyValue> and from to_lazyvalue. For each source the accessor set (get_type, is_*, as_bool, as_number/as_u64/as_i64/as_f64, as_str, as_raw_number, get, pointer, as_array/as_object + len/iteration) is compared with the reference tree of the raw text; to_string must reproduce the raw text verbatim (deserialize-then-serialize == trimmed input); Value::try_from(lazy) must equal the reference; conversions borrowed->owned and clones must agree. Histories on OwnedLazyValue (clone, take, as_array_mut/as_object_mut + push / append_pair / replace / remove, get_mut, pointer_mut + assignment, mutable lookups that must fail and must leave the child's text, raw number and type unchanged) are mirrored on a reference model; afterwards parse(to_string(mutated)) must equal the model, untouched children must still serialize to their source span byte for byte, and clones taken earlier must be unchanged. Non-trivial = container with >= 1 member or escaped string, or a history with a mutation after a clone; distinct by case bytes.";
 pub const ASSUMPTIONS: &[&str] = &["refjson parser", "Display for OwnedLazyValue is not part of the statement"];
 
 #[derive(Deserialize)]
@@ -258,7 +258,7 @@ pub fn oracle_history(case: &[u8], obs: &mut Obs) -> Result<(), Fail> {
     let mut mutated_after_clone = false;
     let nops = 1 + src.below(8);
     for _ in 0..nops {
-        let op = src.below(9);
+        let op = src.below(10);
         match op {
             0 => {
                 clones.push((v.clone(), model.clone()));
@@ -384,6 +384,58 @@ pub fn oracle_history(case: &[u8], obs: &mut Obs) -> Result<(), Fail> {
                 ensure!(m_equal(&got, &model), "C13/history/model-mismatch", "after [{}] the value is {}, model {}", log.join("; "), trunc(&got.dump(), 300), trunc(&model.dump(), 300));
                 log.push("to-Value".into());
             }
+            9 => {
+                // a mutable lookup that must fail (it descends into a scalar child, asks an array for a key,
+                // an object for an index, or runs past the end) leaves every child exactly as it was
+                let nchildren = match &model {
+                    M::Arr(items) => items.len(),
+                    M::Obj(members) => members.len(),
+                    _ => 0,
+                };
+                if nchildren > 0 {
+                    let i = src.below(nchildren);
+                    let (first, child_is_scalar, child_is_arr): (PointerNode, bool, bool) = match &model {
+                        M::Arr(items) => (PointerNode::Index(i), !matches!(items[i], M::Arr(_) | M::Obj(_)), matches!(items[i], M::Arr(_))),
+                        M::Obj(members) => (PointerNode::Key(faststr::FastStr::new(&members[i].0)), !matches!(members[i].1, M::Arr(_) | M::Obj(_)), matches!(members[i].1, M::Arr(_))),
+                        _ => unreachable!(),
+                    };
+                    let snapshot = |v: &OwnedLazyValue| -> Result<(String, Option<String>, JsonType), Fail> {
+                        let c = v.pointer(&[first.clone()]).ok_or_else(|| Fail::new("C13/history/child", format!("child {first:?} is missing after [{}]", log.join("; "))))?;
+                        Ok((ser(c)?, c.as_raw_number().map(|r| r.as_str().to_string()), c.get_type()))
+                    };
+                    let before = snapshot(&v)?;
+                    let whole_before = ser(&v)?;
+                    let second = if child_is_scalar {
+                        if src.bool() { PointerNode::Index(0) } else { PointerNode::Key("x".into()) }
+                    } else if child_is_arr {
+                        if src.bool() { PointerNode::Key("0".into()) } else { PointerNode::Index(1 << 20) }
+                    } else {
+                        if src.bool() { PointerNode::Index(0) } else { PointerNode::Key("\u{a7}missing".into()) }
+                    };
+                    let path = [first.clone(), second.clone()];
+                    if src.bool() {
+                        ensure!(v.pointer_mut(&path).is_none(), "C13/history/failed-lookup-found", "pointer_mut({path:?}) is Some after [{}]", log.join("; "));
+                    } else {
+                        let slot = v.get_mut(&first).ok_or_else(|| Fail::new("C13/history/get_mut", format!("get_mut({first:?}) is None")))?;
+                        ensure!(slot.get_mut(&second).is_none(), "C13/history/failed-lookup-found", "get_mut({first:?}).get_mut({second:?}) is Some after [{}]", log.join("; "));
+                    }
+                    let after = snapshot(&v)?;
+                    let whole_after = ser(&v)?;
+                    if child_is_scalar {
+                        // a scalar has no parts to load: text, raw number and type stay byte for byte
+                        ensure!(after == before, "C13/history/failed-lookup-changed-child", "after [{}] a failed mutable lookup {path:?} changed the child: {:?} -> {:?}", log.join("; "), before, after);
+                        // (the root itself may be loaded one level by the lookup: its own layout is re-emitted)
+                        let pm = |t: &str| refjson::parse(t.as_bytes()).map(|(n, _)| n.model(t.as_bytes(), false)).map_err(|_| Fail::new("C13/history/malformed-output", format!("output {:?} does not parse", trunc(t, 200))));
+                        ensure!(m_equal(&pm(&whole_after)?, &pm(&whole_before)?), "C13/history/failed-lookup-changed-child", "after [{}] a failed mutable lookup {path:?} changed the value: {:?} -> {:?}", log.join("; "), trunc(&whole_before, 200), trunc(&whole_after, 200));
+                    } else {
+                        // a container child may be loaded one level (layout inside it is then re-emitted): same value
+                        let pm = |t: &str| refjson::parse(t.as_bytes()).map(|(n, _)| n.model(t.as_bytes(), false)).map_err(|_| Fail::new("C13/history/malformed-output", format!("output {:?} does not parse", trunc(t, 200))));
+                        ensure!(m_equal(&pm(&after.0)?, &pm(&before.0)?) && after.2 == before.2, "C13/history/failed-lookup-changed-child", "after [{}] a failed mutable lookup {path:?} changed the child: {:?} -> {:?}", log.join("; "), before, after);
+                        ensure!(m_equal(&pm(&whole_after)?, &pm(&whole_before)?), "C13/history/failed-lookup-changed-child", "after [{}] a failed mutable lookup {path:?} changed the value", log.join("; "));
+                    }
+                    log.push(format!("failed-lookup {path:?}"));
+                }
+            }
             _ => {
                 let c = v.clone();
                 ensure!(ser(&c)? == ser(&v)?, "C13/history/clone-differs", "clone serializes differently after [{}]", log.join("; "));
@@ -408,9 +460,23 @@ pub fn oracle_history(case: &[u8], obs: &mut Obs) -> Result<(), Fail> {
     // untouched children still serialize to their source span byte for byte
     if let (Kind::Arr(items), M::Arr(mitems)) = (&root.kind, &model) {
         for (i, c) in items.iter().enumerate() {
-            if i < mitems.len() && m_equal(&mitems[i], &model_of(c, doc)) && !log.iter().any(|l| l.starts_with(&format!("get_mut({i})")) || l.starts_with("pointer_mut")) {
+            let loaded = matches!(c.kind, Kind::Arr(_) | Kind::Obj(_)) && log.iter().any(|l| l.starts_with("failed-lookup"));
+            if !loaded && i < mitems.len() && m_equal(&mitems[i], &model_of(c, doc)) && !log.iter().any(|l| l.starts_with(&format!("get_mut({i})")) || l.starts_with("pointer_mut")) {
                 if let Some(ch) = v.get(i) {
                     ensure!(ser(ch)?.as_bytes() == c.span.of(doc), "C13/history/untouched-child-changed", "untouched element {i} serializes as {:?}, source span {:?}", trunc(&ser(ch)?, 120), show_bytes(c.span.of(doc), 120));
+                }
+            }
+        }
+    }
+    if let (Kind::Obj(members), M::Obj(mm)) = (&root.kind, &model) {
+        for (k, c) in members.iter() {
+            let loaded = matches!(c.kind, Kind::Arr(_) | Kind::Obj(_)) && log.iter().any(|l| l.starts_with("failed-lookup"));
+            let touched = loaded || log.iter().any(|l| l.starts_with(&format!("get_mut({:?})", k.text)) || l.starts_with("pointer_mut"));
+            if let Some((_, m)) = mm.iter().find(|(kk, _)| *kk == k.text) {
+                if !touched && m_equal(m, &model_of(c, doc)) {
+                    if let Some(ch) = v.get(k.text.as_str()) {
+                        ensure!(ser(ch)?.as_bytes() == c.span.of(doc), "C13/history/untouched-child-changed", "untouched member {:?} serializes as {:?}, source span {:?}", k.text, trunc(&ser(ch)?, 120), show_bytes(c.span.of(doc), 120));
+                    }
                 }
             }
         }
